@@ -202,11 +202,11 @@ def generate(binp, seed, n, start=0, family=0, maxnodes=12):
     return cases, impl, lossy, summary, idxs
 
 
-def evaluate(tag, cases, timeout=900, nshards=16):
+def evaluate(tag, cases, timeout=900, nshards=16, module='Model.TaffyEngineRun', fn='run_case'):
     """`map run_case cases` in `nshards` coqc processes; the cases are dealt out by estimated weight (longest first, to the
     least loaded shard) so that the shards finish together.  Returns (results, seconds per shard)."""
     with Lock('coq'):
-        rcm, outm, _ = coq_make(['Model/TaffyEngineRun.vo'])
+        rcm, outm, _ = coq_make([module.replace('.', '/') + '.vo'])
     if rcm != 0:
         raise RuntimeError(outm[-1500:])
     os.makedirs(os.path.join(COQ, 'Run'), exist_ok=True)
@@ -226,11 +226,11 @@ def evaluate(tag, cases, timeout=900, nshards=16):
         name = 'cases_%s_%d' % (tag, s)
         path = os.path.join(COQ, 'Run', name + '.v')
         with open(path, 'w') as f:
-            f.write('From Coq Require Import NArith ZArith List.\nImport ListNotations.\nFrom TV Require Import Model.TaffyEngineRun.\n')
+            f.write('From Coq Require Import NArith ZArith List.\nImport ListNotations.\nFrom TV Require Import %s.\n' % module)
             f.write('Open Scope Z_scope.\n')
             for b in range(0, len(member[s]), 50):
                 f.write('Definition cs%d : list (list Z) := %s.\n' % (b, coq_list([cases[i] for i in member[s][b:b + 50]])))
-                f.write('Eval vm_compute in (map run_case cs%d).\n' % b)
+                f.write('Eval vm_compute in (map %s cs%d).\n' % (fn, b))
         # the output goes to a file: a shard prints megabytes, and a pipe that is only read when the earlier shards have ended
         # would stall it after 64 kB
         outf = open(path[:-2] + '.out', 'w')
